@@ -7,6 +7,7 @@ package criteria_omission
 
 //@ func omitCriteria
 //@   property C15 C07 C01 C09 C20
+//@   indexsafe
 //@   requires model.rearranged(*omissionOrderCriteria, current.Criteria)
 //@   requires model.coversAll(*listener, current.MethodParameters, current.Criteria) && model.validParams(*listener, current.MethodParameters)
 //@   ensures [omitted_are_first] *result1 == (*omissionOrderCriteria)[0:criteria_splitting.pivot(len(*omissionOrderCriteria), *parsedProps)]
@@ -27,6 +28,7 @@ package criteria_omission
 //@ func (*CriteriaOmission).Apply
 //@   refines model.Bias.Apply with actsOn=omissionActs
 //@   property C15 C07 C09 C01 C20
+//@   indexsafe
 //@   requires model.coherent(*listener, *current)
 //@   ensures [report_type] typeis(result.Props, CriteriaOmissionResult)
 //@   ensures [partition_sizes] len(result.Props.(CriteriaOmissionResult).OmittedCriteria) + len(result.DMP.Criteria) == len(current.Criteria)
@@ -43,6 +45,7 @@ package criteria_omission
 // the bias takes ordering and split condition exactly as the shared parsers give them (no defaults of its own)
 //@ func parseProps
 //@   property C15 C20 C01 C07 C09
+//@   indexsafe
 //@   ensures [ordering_as_requested] result0 != nil && result0.Ordering == (decoded_has(*props, "Ordering") ? decoded_str(*props, "Ordering") : "")
 //@   ensures [split_as_requested] result1 != nil && result1.Ratio == (decoded_has(*props, "Ratio") ? decoded_real(*props, "Ratio") : 0.0)
 //@             && result1.Min == (decoded_has(*props, "Min") ? decoded_int(*props, "Min") : 0)
@@ -51,6 +54,7 @@ package criteria_omission
 // the registered object holds exactly the collaborators it was built with, each in its own role
 //@ func NewCriteriaOmission
 //@   property C15 C20 C09
+//@   indexsafe
 //@   panics_iff [no_orderings] len(omissionResolvers) == 0
 //@   ensures [wired_as_given] result != nil && fresh(result) && result.omissionResolvers == omissionResolvers
 
@@ -64,5 +68,6 @@ package criteria_omission
 // ---- registered names (what a request must say to select this object; what error messages list)
 //@ func (*CriteriaOmission).Identifier
 //@   property C15 C20 C01 C03 C04 C05 C06 C07 C08 C09 C11 C12 C13 C14 C16 C17 C18 C19
+//@   indexsafe
 //@   nopanic
 //@   ensures [name] result == "criteriaOmission"
